@@ -15,6 +15,7 @@ From JV Require Import Bytes Msg SrvModel SrvLemmas SrvBasics SrvC03.
 From JV Require Import SrvHist.
 From JV Require SrvC06.
 From JV Require SrvNoCrash.
+From JV Require Import SrvC01 SrvC08m SrvEventually.
 Import ListNotations.
 
 (* 1. the barrier counter = number of runnable notifications of released units not yet returned,
@@ -223,3 +224,39 @@ Theorem c03_accepted_in_trace_order : forall tr1 s tr2 s1 oss, run s tr1 = Some 
   accepted s (tr1 ++ tr2) = accepted s tr1 ++ accepted s1 tr2.
 Proof. exact SrvHist.accepted_app. Qed.
 Print Assumptions c03_accepted_in_trace_order.
+
+(* 6. the liveness half as 'eventually' (srv/SrvEventually.v; [eventually], [held_in_handler] are spelled out in
+   props/C01.v: c01_eventually_spec, c01_held_in_handler_spec).  From ANY reachable state s, if the environment does
+   nothing more, the server reaches within mu_rel s windows - in the last state s' of every maximal release-only run -
+   a state in which: everything the transport delivered has been read; a message still queued or at the barrier is held
+   back only by a NOTIFICATION of an earlier message that is in its handler or queued for a slot with every slot
+   taken (never by a call); a request of a released message that has not entered its handler is queued for a slot
+   with all K slots taken by executing handlers; if no runnable notification of a released message is unfinished,
+   everything received has been dispatched and released; and every request that entered its handler during the run
+   has its OStart among the observations of the run. *)
+Theorem c03_later_started_spec : forall c s tr s' oss, c03_later_started c s tr s' oss <->
+  ((forall f, rd s' <> RHold f) /\ (rd s' = RIdle -> ch_in s' = [])) /\
+  ((inq s' <> [] \/ exists u, dp s' = DAtBarrier u \/ dp s' = DBarrierWait u) ->
+     exists u k n, dp s' = DBarrierWait u /\ 0 < nbar s' /\ nth_error (tasks s') k = Some n /\ is_note n = true /\
+       runnable n = true /\ t_unit n < u /\ held_in_handler s' n) /\
+  (forall k t, nth_error (tasks s') k = Some t -> released s' (t_unit t) = true ->
+     (t_st t = TAtAcquire \/ t_st t = TWaiting) ->
+     t_st t = TWaiting /\ sem_free s' = 0 /\ SrvC06.slots_used s' = cf_K c /\ SrvC06.executing s' = cf_K c) /\
+  ((forall j n, nth_error (tasks s') j = Some n -> runnable n = true -> is_note n = true ->
+      released s' (t_unit n) = true -> exists b, t_st n = TDone b) ->
+     inq s' = [] /\ nbar s' = 0 /\ (forall u, ~ (dp s' = DAtBarrier u \/ dp s' = DBarrierWait u)) /\
+     forall v, v < length (units s') -> released s' v = true) /\
+  (forall k t', before_start s k = true -> nth_error (tasks s') k = Some t' -> t_st t' = TRunning ->
+     exists cn, In (OStart (t_params t') cn) (concat oss)).
+Proof. exact (fun c s tr s' oss => conj (fun x => x) (fun x => x)). Qed.
+Print Assumptions c03_later_started_spec.
+
+Theorem c03_later_requests_eventually_start : forall c s, reach c s -> eventually s (c03_later_started c s).
+Proof. exact SrvEventually.c03_later_requests_eventually_start. Qed.
+Print Assumptions c03_later_requests_eventually_start.
+
+(* before_start s k: task k does not exist yet in s, or is parked before Acquire / queued for a slot *)
+Theorem c03_before_start_spec : forall s k, before_start s k = true <->
+  nth_error (tasks s) k = None \/ exists t, nth_error (tasks s) k = Some t /\ (t_st t = TAtAcquire \/ t_st t = TWaiting).
+Proof. exact before_start_spec. Qed.
+Print Assumptions c03_before_start_spec.
